@@ -132,6 +132,27 @@ def c03_1(c: Ctx) -> None:
     reassign = [w for w in c.cg.all_writes('_event_completed_signal') if w.how == 'assign' and w.unit.qualname != 'BaseEvent.event_completed_signal']
     for w in reassign:
         c.fail(w.unit, f'reassigns _event_completed_signal: {U(w.node)[:80]}', 'the completion signal object is replaced (waiters on the old one are lost)', node=w.node)
+    # inside the property the signal object is created at most once: only while none exists yet (a second Event would start unset and lose the completion)
+    prop = c.unit(MOD, 'BaseEvent.event_completed_signal')
+    inner = [w for w in c.cg.all_writes('_event_completed_signal') if w.how == 'assign' and w.unit.key == prop.key]
+    if inner:
+        gp = c.cfg(prop)
+        self_p = prop.params()[0]
+        src = f'{self_p}._event_completed_signal'
+        aliases = [src] + [n.targets[0].id for n in own_nodes(prop.node) if isinstance(n, ast.Assign) and len(n.targets) == 1 and isinstance(n.targets[0], ast.Name) and U(n.value) == src]
+        fp = Facts(lambda a: a in aliases, cg=c.cg, unit=prop)
+        for w in inner:
+            stw = q.stmt_of(w.node)
+            worst = None
+            for n in gp.nodes_of(stw):
+                ps = [q.guard_search(gp, n, f'{a} is None', fp) for a in aliases]
+                if all(p is not None for p in ps):
+                    worst = ps[0]
+            if worst is None:
+                c.ok(where(prop, w.node), 'the completion signal is created only while the event has none (`is None`)')
+            else:
+                c.fail(prop, f'`{q.stmt_text(stw, 70)}` can replace an existing completion signal', 'the completion signal of an event can be replaced by a fresh, unset asyncio.Event: a completed event stops being signalled complete '
+                       '(await blocks again) and waiters on the old object are lost', node=w.node, witness=c.path(gp.entry, worst))
     # children predicate
     check_children_predicate(c)
     # event_children concatenation
